@@ -6,6 +6,7 @@ Draft 2020-12 meta-schema (jsonschema), required <=> not Optional, every default
 Literal pattern accepts exactly the members (probe set), parse(emit(x)) == x (Literal members as a set).
 """
 import itertools
+from collections import OrderedDict
 import json
 import re
 
@@ -61,8 +62,23 @@ SMALL_KEYS = [("int", "absent", "plain"), ("str", "str", "plain"), ("Optional[in
               ("Literal['a', 'b', 'c']", "str", "plain"), ("Optional[dict]", "absent", "plain"), ("float", "intfloat", "nodoc"), ("list", "absent", "plain")]
 
 
+# return entries that carry a default, falsy ones included (the description ends in a full stop: the default announcement follows it)
+RETURNS_DEFAULT = [
+    ("retdef_dot", OrderedDict((("doc", "the result."), ("typ", "int"), ("default", 7)))),
+    ("retzero", OrderedDict((("doc", "the result."), ("typ", "int"), ("default", 0)))),
+    ("retfalse", OrderedDict((("doc", "the result."), ("typ", "bool"), ("default", False)))),
+    ("retfloat0", OrderedDict((("doc", "the result."), ("typ", "float"), ("default", 0.0)))),
+    ("retemptystr", OrderedDict((("doc", "the result."), ("typ", "str"), ("default", "")))),
+    ("rettrue", OrderedDict((("doc", "the result,"), ("typ", "bool"), ("default", True)))),
+]
+
+
 def _space(tier):
     full = sigma()
+    for (hk, h), (rk, r) in itertools.product(HEADERS, RETURNS_DEFAULT):
+        yield dict(kinds=[], ret=rk, hdr=hk), A.mk_ir([], r, h)
+        yield dict(kinds=[list(SMALL_KEYS[0])], ret=rk, hdr=hk), A.mk_ir([("alpha", dict(full)[SMALL_KEYS[0]])], r, h)
+        yield dict(kinds=[list(SMALL_KEYS[1]), list(SMALL_KEYS[4])], ret=rk, hdr=hk), A.mk_ir([("alpha", dict(full)[SMALL_KEYS[1]]), ("beta", dict(full)[SMALL_KEYS[4]])], r, h)
     table = dict(full)
     small = [(k, table[k]) for k in SMALL_KEYS]
     for (hk, h), (rk, r) in itertools.product(HEADERS, A.RETURNS + A.RETURNS_PARTIAL):
